@@ -368,6 +368,9 @@ def cases(rng, tier, shard, nshards):
                 thresholds.append([float(pick(rng, [0.05, 0.1, 0.025, 0.2, 0.15, 0.01])), float(pick(rng, [0.01, 0.05, 0.1, 0.025]))])
             elif grid is not None or rng.random() < 0.2:
                 thresholds.append([float(2.0 ** -int(rng.integers(2, 8))), float(2.0 ** -int(rng.integers(1, 7)))])
+            elif rng.random() < 0.06:
+                # tx so large that no segment / gap can be wider than 2*tx: nothing is inserted, the rest of the contract stays
+                thresholds.append([float(pick(rng, [0.5, 0.75, 1.0, 2.0])), float(10.0 ** rng.uniform(-2.5, -0.3))])
             else:
                 thresholds.append([float(10.0 ** rng.uniform(-2.5, -0.3)), float(10.0 ** rng.uniform(-2.5, -0.3))])
         yield {'points': pts, 'family': fam, 'layout': lay or gen.pick_layout(rng, pts), 'reduction': red,
